@@ -1,61 +1,94 @@
 """C07 — SGP4 propagation equals the reference SGP4 theory.
 
-Every TLE of a finite field alphabet (deviation-bounded product around the ISS
-element set; the full product in the thorough tier) is written by the
-independent codec `mc.ref.tle_codec`, parsed by the real `Tle`, turned into an
-orbit and propagated by the real default propagator (`Sgp4`, which regenerates
-the TLE text and drives the pure-Python port of the sgp4 package) and by the
-native `Sgp4Beta`, at every date of the date alphabet.  The oracle is Vallado's
-C++ implementation (`sgp4.api.Satrec`, accelerated build), called with the exact
-offset in minutes from the epoch.
+Two explorations of the real code, one oracle (Vallado's C++ implementation,
+`sgp4.api.Satrec` accelerated build, called with the exact offset in minutes
+from the epoch):
+
+* product  every TLE of a finite field alphabet (deviation-bounded product around the ISS element
+           set) is written by the independent codec `mc.ref.tle_codec`, parsed by the real `Tle`,
+           turned into an orbit and propagated by the default propagator (`Sgp4`: regenerates the
+           TLE text and drives the pure-Python port of the sgp4 package) and by the native
+           `Sgp4Beta`, at every date of the date alphabet.  The alphabets hold one value on each side
+           of (and exactly on) every visible guard: i = 0 / 180 exactly, e = 0 and around 1e-4,
+           B* = 0, angles 0 / 359.9999, perigee just above / below 220, 156, 98 km, period around
+           225 min.  TLEs are executed one after another in a long-lived process (an incidental long
+           history); a failing case records the units the process executed before it, and replay
+           re-executes them.
+* hist     explicit-state part: every history up to a small depth of {bind propagator slot to an orbit
+           of TLE A/B/C, propagate a slot, copy a propagator, propagate through a fresh Orbit or an
+           Orbit copy}, for both propagators, each history executed from the pristine just-imported
+           library state (forked child of a worker that never executes library code itself).  The
+           oracle is the reference state of the TLE the propagated orbit was built from, whatever
+           happened before.
 """
 
 import itertools
+import json
 import math
+import os
+import traceback
 
 PROPERTY = "C07"
 CLAIM = dict(
     text="Exhaustive comparison of the real Tle -> Orbit -> Sgp4.propagate chain and of the native Sgp4Beta model with "
-    "Vallado's compiled C++ SGP4/SDP4 (WGS-72) on every TLE of a finite alphabet chosen one value per visible branch "
-    "(near-Earth / deep-space / resonant mean motions, e below and above the 1e-4 guards, all inclinations incl. "
-    "critical, retrograde and near-equatorial, zero / negative / heavy drag, four epochs around the two-digit-year "
-    "switch) times seven dates before and after epoch. Wrapper: position within |v| x 50 us, velocity within |a| x 50 us, "
-    "metres, TEME, requested date. Native model: 1 cm wherever the reference uses its full near-Earth model.",
+    "Vallado's compiled C++ SGP4/SDP4 (WGS-72) on every TLE within a deviation bound of the ISS element set over alphabets "
+    "holding one value on each side of every visible guard (near-Earth / deep-space / resonant mean motions and the 225 min "
+    "switch, e = 0, around 1e-4 and up to 0.9, perigee around the 220 / 156 / 98 km switches, i = 0 and 180 exactly, critical, "
+    "retrograde, zero / negative / heavy drag, epochs around the two-digit-year switch) times seven dates before and after "
+    "epoch; plus explicit-state exploration of every short history of propagator initialisations, re-assignments, copies and "
+    "propagations over three element sets of one object, each from the pristine library state. Wrapper: position within "
+    "|v| x 50 us, velocity within |a| x 50 us, metres, TEME, requested date. Native model: 1 cm wherever the reference uses "
+    "its full near-Earth model. The expected state never depends on the history.",
     note="Trusts sgp4.api.Satrec (C++ build, self-tested against Vallado's published verification output) as the "
     "theory, and mc.ref.tle_codec for writing the element sets. Dates are UTC-labelled (scale labels are C04's business). "
-    "Nothing is claimed for element values outside the alphabets.",
-    technique="exhaustive (deviation-bounded) product over finite TLE field and date alphabets on the real code vs. independent compiled reference implementation",
+    "Nothing is claimed for element values outside the alphabets or histories beyond the depth bound.",
+    technique="deviation-bounded exhaustive product over TLE field/date alphabets + explicit-state search over propagator operation histories (fork-isolated) on the real code vs. independent compiled reference implementation",
 )
 RULE = (
-    "cases = (TLE index tuple over the 8 field alphabets, date offset, propagator); tuples within k deviations of the ISS base "
-    "tuple (all tuples in the thorough tier); distinct by construction. non-trivial = a case where the reference returned a "
-    "state (error code 0) and the library result was compared with it"
+    "product: cases = (TLE index tuple over the 8 field alphabets, date offset, propagator); tuples within k deviations of the ISS "
+    "base tuple; distinct by construction; non-trivial = the reference returned a state (error code 0) and the library result was "
+    "compared with it. hist: one case per operation history ending in a propagation (slot-renaming symmetry removed, histories "
+    "using an unbound slot pruned); the final propagation is compared; non-trivial = history of >= 2 operations"
 )
 BOUNDS = {
-    "quick": "all TLE tuples with <= 4 fields deviating from the ISS base tuple x 7 date offsets (+ one timedelta call per TLE)",
-    "thorough": "the full product of the 8 field alphabets (8x7x8x5x3x3x3x5 = 302400 TLEs) x 7 date offsets",
+    "quick": "product: all TLE tuples with <= 3 deviating fields x 7 date offsets (+ one timedelta call per TLE); hist: all histories of <= 4 operations (Sgp4, alphabet of 18 operations, 11 370 histories) / <= 4 operations (Sgp4Beta, 10 operations, 762 histories)",
+    "thorough": "product: <= 5 deviating fields; hist: <= 5 operations (Sgp4, 176 628 histories) / <= 5 (Sgp4Beta, 7 812 histories)",
 }
 ASSUMPTIONS = [
     "oracle = sgp4.api.Satrec accelerated C++ build, WGS-72, opsmode 'i', driven by exact minutes since epoch",
     "TLEs with perigee below the surface are dropped (counted); cases where the reference reports an error code are counted, not compared",
     "native model compared only where the reference record has method 'n' and perigee >= 220 km (isimp == 0), as the property states",
     "velocity tolerance of the native model (not given by the text) = 2 x (|v|/|r|) x 1 cm, the velocity amplitude of a bounded 1 cm relative motion",
+    "native tolerance = 1 cm + 8 x 2^-53 x kappa, kappa = measured sensitivity of the REFERENCE state to relative perturbations of n, e, B* "
+    "(sum of |dr| per unit relative perturbation): round-off of an equally valid evaluation order; negligible (< 1 mm) except where the "
+    "drag series is extrapolated to a diverging orbit (B* = 1e-2, 30 d: reference radius up to 1e6 km), observed |dr| there = 3.2 x 2^-53 x kappa",
+    "wrapper tolerance = 50 us x max(|v|, finite-difference |dr/dt| of the reference over +-50 us) + 1 um (likewise |a| for the velocity): "
+    "identical to |v| x 50 us wherever the theory is smooth; at i = 180 deg exactly SDP4's position changes 4x faster than its velocity output",
+    "hist: os.fork() of a worker process that has imported but never executed the library gives the pristine state; a replay process is in the same state",
 ]
 NOT_COVERED = (
     "element values between the alphabet points, |dt| > 30 d, epochs outside 1973-2017, the 'a' (AFSPC) operation mode, "
-    "non-UTC date labels (C04), Sgp4Beta outside the full near-Earth regime"
+    "non-UTC date labels (C04), Sgp4Beta outside the full near-Earth regime, histories longer than the depth bound or over more "
+    "than three element sets / two propagator objects, concurrent (threaded) use"
 )
 
 # ---------------------------------------------------------------------------
 # alphabets (index 0 = base value, the ISS element set 25544 of 2016-05-03)
 
-A_I = [51.6, 0.01, 28.5, 63.4, 90.0, 98.7, 144.0, 179.9]
-A_E = [1e-3, 0.0, 5e-5, 0.1, 0.45, 0.7, 0.9]  # 0.45: most eccentric orbit of the full near-Earth regime (n = 6.5)
-A_N = [15.5, 0.5, 1.0027, 2.0, 6.3, 6.5, 12.0, 16.5]
+
+def PERI(km):
+    """Symbolic eccentricity: the 7-digit e that puts the reference's perigee altitude at `km` for the TLE's n and i."""
+    return ("perigee", km)
+
+
+A_I = [51.6, 0.0, 0.01, 28.5, 63.4, 90.0, 98.7, 144.0, 179.9, 180.0]
+A_E = [1e-3, 0.0, 5e-5, 0.0000999, 0.0001, 0.0001001, 0.1, 0.45, 0.7, 0.9,
+       PERI(220.5), PERI(219.5), PERI(156.5), PERI(155.5), PERI(98.5), PERI(97.5)]
+A_N = [15.5, 0.5, 1.0027, 2.0, 6.3, 6.38, 6.4, 6.42, 6.5, 12.0, 16.5]  # 6.4 rev/d = 225.0 min
 A_B = [1e-4, 0.0, 1e-5, -1e-5, 1e-2]
-A_W = [87.7267, 0.0, 270.0]
+A_W = [87.7267, 0.0, 270.0, 359.9999]
 A_O = [216.9905, 0.0, 359.9999]
-A_M = [22.6472, 0.0, 180.0]
+A_M = [22.6472, 0.0, 180.0, 359.9999]
 A_EP = ["16124.55610684", "73110.50000000", "99365.90000000", "00001.00000000", "17182.50000000"]
 ALPHA = [A_I, A_E, A_N, A_B, A_W, A_O, A_M, A_EP]
 NAMES = ["i", "e", "n", "bstar", "argp", "raan", "M", "epoch"]
@@ -64,6 +97,7 @@ DTS = [-30 * 86400 * 10 ** 6, -86400 * 10 ** 6, -86400000, 0, 43200 * 10 ** 6, 8
 TD_DT = 43200 * 10 ** 6  # offset also exercised through a timedelta argument
 
 MU72 = 3.986008e14  # WGS-72, m^3/s^2 (only used to scale the velocity tolerance)
+RE72 = 6378.135  # km
 TIME_RES = 50e-6  # s, property text
 
 
@@ -93,10 +127,26 @@ def count_tuples(bound):
     return n
 
 
+# ---------------------------------------------------------------------------
+# units
+
+CFG_PRODUCT = {"eop": "pass", "part": "product"}
+CFG_HIST = {"eop": "pass", "part": "hist"}  # own worker group: these workers never execute library code themselves
+
+
 def units(tier, seed):
-    bound = 4 if tier == "quick" else len(ALPHA)
-    parts = 64 if tier == "quick" else 256
-    return [({"eop": "pass"}, dict(bound=bound, part=(j + seed) % parts, parts=parts)) for j in range(parts)]
+    bound = 3 if tier == "quick" else 5
+    parts = 48 if tier == "quick" else 384
+    u = [(CFG_PRODUCT, dict(part="product", bound=bound, j=(j + seed) % parts, parts=parts)) for j in range(parts)]
+    depth = {"wrapper": 4, "native": 4} if tier == "quick" else {"wrapper": 5, "native": 5}
+    for kind in ("wrapper", "native"):
+        hparts = 16 if tier == "quick" else 64
+        for j in range(hparts):
+            u.append((CFG_HIST, dict(part="hist", kind=kind, depth=depth[kind], j=j, parts=hparts)))
+    return u
+
+
+_PROC = []  # product payloads this process has started, in order (the process history of a product case)
 
 
 def setup(config):
@@ -105,32 +155,94 @@ def setup(config):
 
     bc.update({"eop": {"missing_policy": "pass"}})
     sgp4_ref.require_accelerated()
+    # import (not execute) everything the histories need, so that forked children do not pay for it
+    import numpy  # noqa
+    from beyond.dates import Date  # noqa
+    from beyond.io.tle import Tle  # noqa
+    from beyond.propagators.sgp4 import Sgp4  # noqa
+    from beyond.propagators.sgp4beta import Sgp4Beta  # noqa
+    # warm-up of machinery that is not under test here and is lazily initialised on first use (EOP entry-point scan of
+    # Date, lazy imports): done once per process -- workers and replay alike -- so that "pristine" means: no Tle, Orbit
+    # or propagator code has run yet.
+    import _strptime  # noqa
+    import sgp4.model  # noqa
+    import beyond.propagators.j2, beyond.propagators.kepler, beyond.propagators.keplernum, beyond.propagators.none  # noqa
+    Date(2000, 1, 1)
 
 
 def run_unit(p, t):
-    for j, idx in enumerate(enum_tuples(p["bound"])):
-        if j % p["parts"] != p["part"]:
-            continue
-        check_tle(list(idx), DTS, ("wrapper", "native"), True, t)
+    if p["part"] == "product":
+        _PROC.append(dict(p))
+        for j, idx in enumerate(enum_tuples(p["bound"])):
+            if j % p["parts"] == p["j"]:
+                check_tle(list(idx), t)
+    else:
+        for j, ops in enumerate(enum_histories(p["kind"], p["depth"])):
+            if j % p["parts"] == p["j"]:
+                check_history(dict(part="hist", kind=p["kind"], ops=ops), t, isolate=True)
 
 
 def replay(case, t):
-    check_tle(case["idx"], [case["dt_us"]], (case["which"],), case.get("timedelta", False), t)
+    from mc.engine import Tally
+
+    if case.get("part") == "hist":
+        check_history(case, t, isolate=False)
+        return
+    # product: bring the process into the state it had (every unit it ran before, then the TLEs of the
+    # current unit that precede the case), then run the TLE of the case
+    proc = case.get("proc") or []
+    scratch = Tally()
+    for p in proc[:-1]:
+        for j, idx in enumerate(enum_tuples(p["bound"])):
+            if j % p["parts"] == p["j"]:
+                check_tle(list(idx), scratch)
+    if proc:
+        p = proc[-1]
+        for j, idx in enumerate(enum_tuples(p["bound"])):
+            if j % p["parts"] == p["j"]:
+                if list(idx) == list(case["idx"]):
+                    break
+                check_tle(list(idx), scratch)
+    _PROC[:] = [dict(p) for p in proc]
+    check_tle(case["idx"], t)
 
 
 # ---------------------------------------------------------------------------
+# TLE text of an index tuple
 
 
-def tle_lines(idx):
-    from mc.ref import tle_codec as tc
+def resolve(idx):
+    """Index tuple -> field values (symbolic eccentricities resolved against the reference), or None if infeasible."""
+    from mc.ref import sgp4_ref
 
     v = [ALPHA[c][k] for c, k in enumerate(idx)]
+    if isinstance(v[1], tuple):
+        target = v[1][1]
+        e = 0.0
+        for _ in range(4):
+            ref = sgp4_ref.Ref(*_encode(v[:1] + [e] + v[2:]))
+            e_new = 1.0 - (1.0 + target / RE72) / ref.a_er
+            if not (0.0 <= e_new <= 0.9):
+                return None
+            e = round(e_new, 7)
+        v[1] = e
+    return v
+
+
+def _encode(v):
+    from mc.ref import tle_codec as tc
+
     f = dict(
         satnum="25544", desig="98067A", epoch=v[7], ndot=" .00003442", nddot=" 00000-0", bstar=tc.fmt_exp(repr(v[3])),
         elnum="999", i=tc.fmt_angle(repr(v[0])), raan=tc.fmt_angle(repr(v[5])), e=tc.fmt_ecc(repr(v[1])),
         argp=tc.fmt_angle(repr(v[4])), M=tc.fmt_angle(repr(v[6])), n=tc.fmt_n(repr(v[2])), revnum="99798",
     )
     return tc.encode(f)
+
+
+def tle_lines(idx):
+    v = resolve(idx)
+    return None if v is None else _encode(v)
 
 
 def _bclass(b):
@@ -146,8 +258,68 @@ def _norm(x):
     return math.sqrt(sum(c * c for c in x))
 
 
-def check_tle(idx, dts, which, with_timedelta, t):
-    """All checks of one TLE at the given date offsets; also the single-case entry point of replay()."""
+def _regime(ref):
+    return "deep" if ref.method == "d" else "near-simple" if ref.isimp else "near-full"
+
+
+EPS = 2.0 ** -53
+COND_FACTOR = 8.0  # round-off allowance of the native comparison = 8 x 2^-53 x kappa (see ASSUMPTIONS)
+
+
+def judge(w, x, ref, tsince, r_ref, v_ref, t, case, sig, bc, detail):
+    """Compare one library state `x` (6 floats) with the reference state (r_ref, v_ref) of record `ref` at `tsince` minutes;
+    record margins / failure under signature `sig`.  Returns True when within tolerance."""
+    import numpy as np
+
+    x = np.array(x, dtype=float)
+    rn, vn = _norm(r_ref), _norm(v_ref)
+    dr = _norm(x[:3] - np.array(r_ref))
+    dv = _norm(x[3:] - np.array(v_ref))
+    finite = bool(np.all(np.isfinite(x)))
+    if w == "wrapper":
+        # time resolution x rate of change of the reference.  The rate is |v| (resp. |a|) for a smooth model; it is measured
+        # on the reference itself (central difference over +-50 us) because SDP4's position is not the integral of its
+        # velocity output where its lunar-solar periodics divide by sin i (i = 180 deg exactly).
+        fd_r, fd_v = ref.rates(tsince, TIME_RES)
+        acc = MU72 / rn ** 2
+        rate_r, rate_v = max(vn, fd_r), max(acc, fd_v)
+        if fd_r > 1.05 * vn or fd_v > 1.05 * acc:
+            t.outcome(("wrapper-reference-rate-exceeds-velocity", _regime(ref)))
+            t.exclude("(not excluded, counted) wrapper cases judged with the reference's own finite-difference rate because it exceeds |v| / |a| by > 5 %")
+        tol_r = rate_r * TIME_RES + 1e-6
+        tol_v = rate_v * TIME_RES + 1e-9
+        ok_r = t.margin("wrapper |dr| vs rate*50us+1um", dr, tol_r, case)
+        ok_v = t.margin("wrapper |dv| vs rate*50us+1nm/s", dv, tol_v, case)
+        if not (ok_r and ok_v and finite):
+            t.fail(sig, "default propagator returns the reference SGP4/SDP4 state of its TLE within |v| x 50 us (m, m/s, TEME)", case,
+                   [list(r_ref), list(v_ref)], x, f"|dr|={dr:.3e} m (tol {tol_r:.3e}), |dv|={dv:.3e} m/s (tol {tol_v:.3e}); {detail}")
+            return False
+        return True
+    # native: 1 cm (property) + round-off x conditioning of the theory at this point
+    kr, kv = ref.conditioning(tsince)
+    tol_r = 0.01 + COND_FACTOR * EPS * kr
+    tol_v = 2.0 * (vn / rn) * 0.01 + COND_FACTOR * EPS * kv
+    cond = "well-conditioned" if COND_FACTOR * EPS * kr < 1e-3 else "ill-conditioned"
+    ok_r = t.margin(f"native |dr| vs 1 cm + 8 eps kappa ({bc}, {cond})", dr, tol_r, case)
+    ok_v = t.margin(f"native |dv| vs 2|v|/|r| x 1 cm + 8 eps kappa_v ({bc}, {cond})", dv, tol_v, case)
+    if not ok_r or not finite:
+        mag = "lt1m" if dr < 1.0 else "ge1m"  # magnitude class: keeps a gross error apart from a centimetre-level one
+        t.fail(f"{sig}/{mag}", "native SGP4 equals the reference within 1 cm in the reference's full near-Earth regime", case,
+               [list(r_ref), list(v_ref)], x, f"|dr|={dr:.4f} m (tol {tol_r:.4f}), |dv|={dv:.3e} m/s; {detail}")
+        return False
+    if not ok_v:
+        t.fail(sig.replace("vs-reference", "velocity"), "native SGP4 velocity consistent with a 1 cm position agreement", case,
+               list(v_ref), x[3:], f"|dv|={dv:.3e} m/s (tol {tol_v:.3e}); {detail}")
+        return False
+    return True
+
+
+# ---------------------------------------------------------------------------
+# product part
+
+
+def check_tle(idx, t):
+    """All checks of one TLE (7 date offsets, both propagators, one timedelta call each)."""
     import numpy as np
     from datetime import timedelta
     from mc.ref import sgp4_ref, tle_codec as tc
@@ -156,10 +328,16 @@ def check_tle(idx, dts, which, with_timedelta, t):
     from beyond.propagators.sgp4 import Sgp4
     from beyond.propagators.sgp4beta import Sgp4Beta
 
-    l1, l2 = tle_lines(idx)
-    vals = {n: ALPHA[c][k] for c, (n, k) in enumerate(zip(NAMES, idx))}
-    ref = sgp4_ref.Ref(l1, l2)
+    which = ("wrapper", "native")
+    dts = DTS
     ncases = len(dts) * len(which)
+    v = resolve(idx)
+    if v is None:
+        t.exclude("perigee target not attainable with 0 <= e <= 0.9 for this mean motion", ncases)
+        return
+    l1, l2 = _encode(v)
+    vals = dict(zip(NAMES, v))
+    ref = sgp4_ref.Ref(l1, l2)
     if ref.perigee_km < 0.0:
         t.exclude("perigee below the surface (not a physical TLE)", ncases)
         return
@@ -167,9 +345,10 @@ def check_tle(idx, dts, which, with_timedelta, t):
         t.exclude("reference initialisation error %d" % ref.init_error, ncases)
         return
     epoch = tc.epoch_datetime(tc.decode(l1, l2))
-    regime = "deep" if ref.method == "d" else "near-simple" if ref.isimp else "near-full"
+    regime = _regime(ref)
     full = ref.full_near_earth()
-    base_case = dict(idx=list(idx), tle=[l1, l2])
+    base_case = dict(part="product", idx=list(idx), tle=[l1, l2], proc=[dict(p) for p in _PROC])
+    detail = f"{vals}; perigee {ref.perigee_km:.2f} km, period {ref.period_min:.2f} min"
 
     # ---- the library side: parse, orbit, propagators (must succeed: the TLE is syntactically valid)
     try:
@@ -179,11 +358,11 @@ def check_tle(idx, dts, which, with_timedelta, t):
         t.fail("sgp4/tle-to-orbit-raises", "a syntactically valid TLE yields an orbit", dict(base_case, dt_us=dts[0], which=which[0]),
                "Orbit", repr(e))
         return
-    if "wrapper" in which and not isinstance(orb.propagator, Sgp4):
+    if not isinstance(orb.propagator, Sgp4):
         t.fail("sgp4/default-propagator", "the default propagator of a TLE orbit is Sgp4", dict(base_case, dt_us=dts[0], which="wrapper"),
                "Sgp4", repr(type(orb.propagator)))
     beta = None
-    if "native" in which and full is True:
+    if full is True:
         try:
             beta = Sgp4Beta()
             beta.orbit = Tle(l1 + "\n" + l2).orbit()
@@ -197,13 +376,13 @@ def check_tle(idx, dts, which, with_timedelta, t):
         tsince = dt_us / 6e7  # minutes, exact to one rounding
         err, r_ref, v_ref = ref.state(tsince)
         date = Date(epoch) + timedelta(microseconds=dt_us)
-        rn, vn = _norm(r_ref), _norm(v_ref)
         for w in which:
             t.states_add(1)
             case = dict(base_case, dt_us=dt_us, which=w)
-            if w == "native" and full is not True:
-                t.exclude("native model: reference not in its full near-Earth model (deep-space or perigee < 220 km)"
-                          if full is False else "native model: perigee within 1 m of the 220 km switch")
+            if w == "native" and (full is not True or beta is None):
+                if full is not True:
+                    t.exclude("native model: reference not in its full near-Earth model (deep-space or perigee < 220 km)"
+                              if full is False else "native model: perigee within 1 m of the 220 km switch")
                 continue
             if err != 0:
                 t.exclude("reference error code %d (%s)" % (err, sgp4_ref.ERRORS.get(err, "?")))
@@ -211,62 +390,37 @@ def check_tle(idx, dts, which, with_timedelta, t):
                 t.ev()
                 continue
             # ---- execute the real code
+            lib = "sgp4" if w == "wrapper" else "sgp4beta"
             try:
-                if w == "wrapper":
-                    sv = orb.propagate(date)
-                else:
-                    sv = beta.propagate(date)
+                sv = orb.propagate(date) if w == "wrapper" else beta.propagate(date)
                 t.trans(1)
             except Exception as e:
                 t.ev((tuple(idx), dt_us, w))
-                t.fail(f"{'sgp4' if w == 'wrapper' else 'sgp4beta'}/propagate-raises/{regime}/{_dtclass(dt_us)}",
+                t.fail(f"{lib}/propagate-raises/{regime}/{_dtclass(dt_us)}",
                        "propagation returns a state where the reference does", case, [list(r_ref), list(v_ref)], repr(e))
                 continue
             t.ev((tuple(idx), dt_us, w))
             x = np.array(sv, dtype=float)
-            dr = _norm(x[:3] - np.array(r_ref))
-            dv = _norm(x[3:] - np.array(v_ref))
             # frame / form / date of the result
             fr = getattr(sv.frame, "name", str(sv.frame))
             if fr != "TEME" or sv.form.name != "cartesian" or sv.date != date:
-                t.fail(f"{'sgp4' if w == 'wrapper' else 'sgp4beta'}/result-labels", "result is cartesian, TEME, at the requested date",
+                t.fail(f"{lib}/result-labels", "result is cartesian, TEME, at the requested date",
                        case, ["TEME", "cartesian", str(date)], [fr, sv.form.name, str(sv.date)])
+            bc = _bclass(vals["bstar"])
             if w == "wrapper":
-                acc = MU72 / rn ** 2
-                tol_r = vn * TIME_RES + 1e-6
-                tol_v = acc * TIME_RES + 1e-9
-                ok_r = t.margin("wrapper |dr| vs |v|*50us+1um", dr, tol_r, case)
-                ok_v = t.margin("wrapper |dv| vs |a|*50us+1nm/s", dv, tol_v, case)
-                if not (ok_r and ok_v) or not np.all(np.isfinite(x)):
-                    t.fail(f"sgp4/vs-reference/{regime}/{_dtclass(dt_us)}",
-                           "default propagator returns the reference SGP4/SDP4 state within |v| x 50 us (m, m/s, TEME)", case,
-                           [list(r_ref), list(v_ref)], x, f"|dr|={dr:.3e} m (tol {tol_r:.3e}), |dv|={dv:.3e} m/s (tol {tol_v:.3e}); {vals}")
-                t.outcome(("wrapper", regime, _dtclass(dt_us), bool(ok_r and ok_v)))
+                ok = judge(w, x, ref, tsince, r_ref, v_ref, t, case, f"sgp4/vs-reference/{regime}/{_dtclass(dt_us)}", bc, detail)
             else:
-                bc = _bclass(vals["bstar"])
-                tol_r = 0.01
-                tol_v = 2.0 * (vn / rn) * 0.01
-                ok_r = t.margin(f"native |dr| vs 1 cm ({bc})", dr, tol_r, case)
-                ok_v = t.margin(f"native |dv| vs 2|v|/|r| x 1 cm ({bc})", dv, tol_v, case)
-                if not ok_r or not np.all(np.isfinite(x)):
-                    mag = "lt1m" if dr < 1.0 else "ge1m"  # magnitude class: keeps a gross error apart from a centimetre-level one
-                    t.fail(f"sgp4beta/vs-reference/{bc}/{_dtclass(dt_us)}/{mag}",
-                           "native SGP4 equals the reference within 1 cm in the reference's full near-Earth regime", case,
-                           [list(r_ref), list(v_ref)], x, f"|dr|={dr:.4f} m, |dv|={dv:.3e} m/s; {vals}; perigee {ref.perigee_km:.1f} km, "
-                           f"period {ref.period_min:.1f} min")
-                elif not ok_v:
-                    t.fail(f"sgp4beta/velocity/{bc}/{_dtclass(dt_us)}",
-                           "native SGP4 velocity consistent with a 1 cm position agreement", case, list(v_ref), x[3:],
-                           f"|dv|={dv:.3e} m/s (tol {tol_v:.3e})")
-                t.outcome(("native", bc, _dtclass(dt_us), bool(ok_r)))
+                ok = judge(w, x, ref, tsince, r_ref, v_ref, t, case, f"sgp4beta/vs-reference/{bc}/{_dtclass(dt_us)}", bc, detail)
+            t.outcome((w, regime, bc if w == "native" else "", _dtclass(dt_us), ok))
             if dt_us == DTS[-1] and sum(idx) <= 1:
-                t.sample(dict(case, dr=dr, dv=dv, regime=regime))
+                t.sample({k: v_ for k, v_ in case.items() if k != "proc"})
 
         # ---- timedelta argument: same result as the Date argument (one offset per TLE)
-        if with_timedelta and dt_us == TD_DT and err == 0:
+        if dt_us == TD_DT and err == 0:
             for w in which:
                 if w == "native" and beta is None:
                     continue
+                lib = "sgp4" if w == "wrapper" else "sgp4beta"
                 case = dict(base_case, dt_us=dt_us, which=w, timedelta=True)
                 p = orb if w == "wrapper" else beta
                 try:
@@ -275,10 +429,245 @@ def check_tle(idx, dts, which, with_timedelta, t):
                     b = np.array(sv_b, dtype=float)
                     t.trans(2)
                 except Exception as e:
-                    t.fail(f"{'sgp4' if w == 'wrapper' else 'sgp4beta'}/timedelta-raises", "a timedelta argument is accepted", case, None, repr(e))
+                    t.fail(f"{lib}/timedelta-raises", "a timedelta argument is accepted", case, None, repr(e))
                     continue
                 t.ev((tuple(idx), "td", w))
                 t.states_add(1)
                 if not np.array_equal(a, b) or sv_b.date != date:
-                    t.fail(f"{'sgp4' if w == 'wrapper' else 'sgp4beta'}/timedelta-differs",
-                           "propagate(timedelta) equals propagate(epoch + timedelta)", case, a, b, f"dates {date} / {sv_b.date}")
+                    t.fail(f"{lib}/timedelta-differs", "propagate(timedelta) equals propagate(epoch + timedelta)", case, a, b,
+                           f"dates {date} / {sv_b.date}")
+
+
+# ---------------------------------------------------------------------------
+# hist part: explicit-state search over operation histories
+
+# element sets of ONE object (same catalogue number, same epoch), as index tuples of the alphabets
+H_TLES = {
+    "wrapper": {"A": (0, 0, 0, 0, 0, 0, 0, 0), "B": (6, 6, 9, 2, 1, 1, 2, 0), "C": (4, 8, 3, 0, 2, 2, 0, 0)},  # ISS-like, n=12 e=0.1 SSO-like, Molniya-like deep-space
+    "native": {"A": (0, 0, 0, 0, 0, 0, 0, 0), "B": (6, 6, 9, 2, 1, 1, 2, 0), "C": (1, 2, 0, 4, 0, 0, 0, 0)},  # C: equatorial, e < 1e-4, heavy drag
+}
+H_DTS = {"d1": 43200 * 10 ** 6, "d2": -86400 * 10 ** 6}
+
+
+def _ops(kind):
+    ops = [["assign", s, x] for s in (0, 1) for x in "ABC"] + [["prop", s, d] for s in (0, 1) for d in ("d1", "d2")]
+    if kind == "wrapper":
+        ops += [["copy", s] for s in (0, 1)]
+        ops += [["oprop", x, "d1"] for x in "ABC"] + [["ocopy", x, "d1"] for x in "ABC"]
+    return ops
+
+
+CHECK_OPS = ("prop", "oprop", "ocopy")
+
+
+def enum_histories(kind, depth):
+    """All valid histories of 1..depth operations ending in a propagation; slot 0 is the first slot used."""
+    ops = _ops(kind)
+
+    def rec(hist, slots, used1):
+        # slots[s]: None = no object, "" = unbound object, "A"/"B"/"C" = bound
+        for op in ops:
+            name = op[0]
+            s = op[1] if name in ("assign", "prop", "copy") else None
+            if s == 1 and not used1 and slots[0] is None:
+                continue  # symmetry: the first slot touched is slot 0
+            if name == "prop" and not slots[s]:
+                continue
+            if name == "copy" and slots[s] is None:
+                continue
+            h2 = hist + [op]
+            if name in CHECK_OPS:
+                yield h2
+            if len(h2) < depth:
+                s2 = list(slots)
+                if name == "assign":
+                    s2[s] = op[2]
+                elif name == "copy":
+                    s2[1 - s] = ""
+                yield from rec(h2, s2, used1 or s == 1)
+
+    yield from rec([], [None, None], False)
+
+
+def exec_history(arg):
+    """Run in the pristine library state: execute the operations, return the observation of the last one."""
+    import numpy as np
+    from datetime import timedelta
+    from beyond.dates import Date
+    from beyond.io.tle import Tle
+    from beyond.propagators.sgp4 import Sgp4
+    from beyond.propagators.sgp4beta import Sgp4Beta
+
+    kind, ops, texts, epoch_iso = arg["kind"], arg["ops"], arg["texts"], arg["epoch"]
+    from datetime import datetime
+
+    epoch = datetime.strptime(epoch_iso, "%Y-%m-%dT%H:%M:%S.%f")
+    K = Sgp4 if kind == "wrapper" else Sgp4Beta
+    slots = [None, None]
+    bound = [None, None]
+    obs = None
+    for n_op, op in enumerate(ops):
+        name = op[0]
+        last = n_op == len(ops) - 1
+        try:
+            if name == "assign":
+                s, x = op[1], op[2]
+                if slots[s] is None:
+                    slots[s] = K()
+                slots[s].orbit = Tle(texts[x]).orbit()
+                bound[s] = x
+                sv = None
+            elif name == "copy":
+                s = op[1]
+                slots[1 - s] = slots[s].copy()
+                bound[1 - s] = None
+                sv = None
+            else:
+                date = Date(epoch) + timedelta(microseconds=H_DTS[op[2]])
+                if name == "prop":
+                    sv = slots[op[1]].propagate(date)
+                elif name == "oprop":
+                    sv = Tle(texts[op[1]]).orbit().propagate(date)
+                else:  # ocopy
+                    sv = Tle(texts[op[1]]).orbit().copy().propagate(date)
+        except Exception as e:
+            return dict(exc=repr(e), at=n_op)
+        if last:
+            obs = dict(x=[float(c) for c in np.array(sv, dtype=float)], frame=getattr(sv.frame, "name", str(sv.frame)),
+                       form=sv.form.name, date_ok=bool(sv.date == date))
+    return obs
+
+
+def run_isolated(func, arg):
+    """func(arg) in a forked child (pristine copy of this process); JSON result through a pipe."""
+    r, w = os.pipe()
+    pid = os.fork()
+    if pid == 0:
+        code = 0
+        try:
+            os.close(r)
+            try:
+                data = json.dumps(dict(result=func(arg)))
+            except BaseException:
+                data = json.dumps(dict(harness_error=traceback.format_exc()))
+            with os.fdopen(w, "w") as f:
+                f.write(data)
+        finally:
+            os._exit(code)
+    os.close(w)
+    with os.fdopen(r) as f:
+        data = f.read()
+    os.waitpid(pid, 0)
+    out = json.loads(data)
+    if "harness_error" in out:
+        raise RuntimeError("history child failed:\n" + out["harness_error"])
+    return out["result"]
+
+
+_H = {}
+
+
+def _hist_world(kind):
+    """Texts, references and epoch of the element sets of the hist part (parent side: reference only)."""
+    if kind not in _H:
+        from mc.ref import sgp4_ref, tle_codec as tc
+
+        texts, refs = {}, {}
+        for x, idx in H_TLES[kind].items():
+            l1, l2 = tle_lines(idx)
+            texts[x] = l1 + "\n" + l2
+            refs[x] = sgp4_ref.Ref(l1, l2)
+            epoch = tc.epoch_datetime(tc.decode(l1, l2))
+            if kind == "native" and refs[x].full_near_earth() is not True:
+                raise AssertionError("harness: hist element set outside the native model's regime")
+        _H[kind] = (texts, refs, epoch)
+    return _H[kind]
+
+
+def _valid(ops):
+    slots = [None, None]
+    for op in ops:
+        if op[0] == "assign":
+            slots[op[1]] = op[2]
+        elif op[0] == "prop":
+            if not slots[op[1]]:
+                return False
+        elif op[0] == "copy":
+            if slots[op[1]] is None:
+                return False
+            slots[1 - op[1]] = ""
+    return bool(ops) and ops[-1][0] in CHECK_OPS
+
+
+def check_history(case, t, isolate):
+    """One history.  In exploration mode a failing history is first shrunk (greedy removal of operations, each candidate
+    executed from the pristine state) so that the recorded case is a minimal reproducer of the same signature."""
+    from mc.engine import Tally, MAX_FAILS_PER_SIG
+
+    if not isolate:
+        _history_once(case, t, False)
+        return
+    probe = Tally()
+    _history_once(case, probe, True)
+    if probe.failures:
+        sig = probe.failures[0]["signature"]
+        if t.fail_counts.get(sig, 0) < MAX_FAILS_PER_SIG:
+            ops = [list(o) for o in case["ops"]]
+            changed = True
+            while changed:
+                changed = False
+                for k in range(len(ops) - 1):
+                    cand = ops[:k] + ops[k + 1:]
+                    if not _valid(cand):
+                        continue
+                    trial = Tally()
+                    _history_once(dict(case, ops=cand), trial, True)
+                    if any(f["signature"] == sig for f in trial.failures):
+                        ops, changed = cand, True
+                        probe.failures = [f for f in trial.failures if f["signature"] == sig][:1]
+                        break
+    t.merge(probe)
+
+
+def _history_once(case, t, isolate):
+    kind, ops = case["kind"], [list(o) for o in case["ops"]]
+    texts, refs, epoch = _hist_world(kind)
+    arg = dict(kind=kind, ops=ops, texts=texts, epoch=epoch.strftime("%Y-%m-%dT%H:%M:%S.%f"))
+    obs = run_isolated(exec_history, arg) if isolate else exec_history(arg)
+    t.trans(len(ops))
+    t.states_add(1)
+    t.ev((kind, tuple(map(tuple, ops))) if len(ops) >= 2 else None)
+    # which element set does the final propagation belong to?
+    last = ops[-1]
+    if last[0] == "prop":
+        x = None
+        for op in ops[:-1]:
+            if op[0] == "assign" and op[1] == last[1]:
+                x = op[2]
+            elif op[0] == "copy" and 1 - op[1] == last[1]:
+                x = None
+        if x is None:
+            raise AssertionError(f"harness: history propagates an unbound slot: {ops}")
+    else:
+        x = last[1]
+    seen = set(op[2] if op[0] == "assign" else op[1] for op in ops[:-1] if op[0] in ("assign", "oprop", "ocopy"))
+    cls = "after-other-tle" if seen - {x} else "same-tle-only"
+    lib = "sgp4" if kind == "wrapper" else "sgp4beta"
+    ref = refs[x]
+    err, r_ref, v_ref = ref.state(H_DTS[last[2]] / 6e7)
+    if err:
+        raise AssertionError("harness: reference error in the hist part")
+    full_case = dict(case, ops=ops, tles=texts)
+    if "exc" in obs:
+        t.fail(f"{lib}/history/{cls}/{last[0]}/raises", "every operation of a valid history succeeds", full_case, "state", obs["exc"],
+               f"operation #{obs['at']} of {ops}")
+        return
+    if obs["frame"] != "TEME" or obs["form"] != "cartesian" or not obs["date_ok"]:
+        t.fail(f"{lib}/history/result-labels", "result is cartesian, TEME, at the requested date", full_case, ["TEME", "cartesian", True],
+               [obs["frame"], obs["form"], obs["date_ok"]])
+    bc = _bclass(ALPHA[3][H_TLES[kind][x][3]])
+    ok = judge(kind, obs["x"], ref, H_DTS[last[2]] / 6e7, r_ref, v_ref, t, full_case, f"{lib}/history/{cls}/{last[0]}/vs-reference", bc,
+               f"history {ops}; final propagation belongs to element set {x}")
+    t.outcome(("hist", kind, cls, last[0], ok))
+    if len(ops) == 3 and cls == "after-other-tle" and len(t.samples) < 2:
+        t.sample(dict(kind=kind, ops=ops))
